@@ -152,7 +152,7 @@ def run(tape, prop, tier):
             # route ?hop= variants to the same behaviour
             orig_serve = server.serve
 
-            def serve(conn, origin, raw, ctx):
+            def serve(conn, origin, raw, ctx, *rest):
                 line = raw.split(b'\r\n', 1)[0].decode('latin-1')
                 target = line.split(' ')[1] if ' ' in line else ''
                 if '?hop=' in target:
@@ -162,9 +162,12 @@ def run(tape, prop, tier):
                         server.behaviour[(origin.key(), target)] = beh
                     if beh is not None:
                         server.behaviour[(origin.key(), target)] = beh
-                return orig_serve(conn, origin, raw, ctx)
+                return orig_serve(conn, origin, raw, ctx, *rest)
             server.serve = serve
-        out = crawl.run_app(tape, r, site, argv, concurrency, sandbox, setup=setup, budget_vtime=5_000_000.0, max_callbacks=40_000)
+        # the legitimate amount of work grows with both limits: tries x (redirects + 1) requests per failing URL (and per start URL for
+        # robots.txt); the callback budget that stands for "does not terminate" must lie well above it
+        legit = tries * (max_redirect + 1) * (nb + len(starts) + 1)
+        out = crawl.run_app(tape, r, site, argv, concurrency, sandbox, setup=setup, budget_vtime=5_000_000.0, max_callbacks=40_000 + 600 * legit)
         rows = crawl.read_rows(dbpath)
         server = out['server']
         if out.get('hang'):
